@@ -135,3 +135,15 @@ Proof.
       * destruct Hd as [Hd|Hd]; [right; subst; exact Hin|left; exact Hd].
       * right. apply filter_In in Hi. tauto.
 Qed.
+
+(* the order in which children are processed (and exported) *)
+From Bq Require Import Routine.
+Theorem children_order_topological children conns order :
+  NoDup (map rname children) -> children_order children conns = Some order ->
+  Permutation order (map rname children) /\
+  (forall l1 x l2, order = (l1 ++ x :: l2)%list -> forall p, In p (child_preds conns x) -> In p l1).
+Proof.
+  intros Hnd H. unfold children_order in H. split.
+  - exact (kahn_perm _ _ _ Hnd H).
+  - exact (kahn_topological _ _ _ Hnd H).
+Qed.
